@@ -34,6 +34,37 @@
 (* (log, flushed, lost sectors, ...) recomputed inside the crash actions,  *)
 (* which keeps states small; the reader operators work on explicit word    *)
 (* arrays exactly as the code works on bytes.                              *)
+(*                                                                         *)
+(* Behaviours: a bounded sequence of Save / SaveSnapshot (with implicit    *)
+(* cut), then ONE of                                                       *)
+(*   Crash1(lost)   crash during the sync in progress: any subset of the   *)
+(*                  sectors touched since the last completed sync reverts  *)
+(*                  to its old (zero) content, the sector holding the      *)
+(*                  synced boundary keeps its synced part; or crash after  *)
+(*                  a call returned (buffered commit-only save, completed  *)
+(*                  cut);                                                  *)
+(*   CrashInCut     crash inside cut() between the sync of the new head in *)
+(*                  the pipeline's .tmp file and its rename;               *)
+(*   Corrupt        one word of a fully synced log damaged (length word /  *)
+(*                  bit 0 of the type byte / any other byte);              *)
+(* then recovery as a server does it (Open+ReadAll in write mode with      *)
+(* ZeroToEnd; on ErrUnexpectedEOF Repair and ReadAll again), optionally    *)
+(* one appended Save (cutting when the tail is past the segment size,      *)
+(* which reuses the left-over .tmp) and a second crash and recovery.       *)
+(*                                                                         *)
+(* Properties (TLC invariants; see the end of the module):                 *)
+(*   RecoveredIsPrefix, TornTailRepairable, AppendAfterRecoveryIsClean,    *)
+(*   EntriesContiguous, CorruptionNeverAccepted, and the exact             *)
+(*   characterisations of the two as-built defects                         *)
+(*   FailuresOnlyFromStaleTmp / StaleTmpAlwaysFatal (C16-F02) and          *)
+(*   CorruptAcceptedOnlyByTypeFlip (C16-F01).                              *)
+(* Named as-built deviations: StaleTmpAsBuilt, TypeInCrc (and the          *)
+(* sensitivity switches ZeroToEndOn, TornShift).                           *)
+(*                                                                         *)
+(* Not modelled: file-size metadata lost with the data (a lost sector      *)
+(* beyond the preallocated size reads as zero, the file is not shortened); *)
+(* Open at a snapshot other than {0,0} (file selection by name) - both are *)
+(* exercised on real files only (walsim); sector sizes other than 512.     *)
 (***************************************************************************)
 EXTENDS Integers, Sequences, FiniteSets, TLC
 
